@@ -296,7 +296,10 @@ func genTableWithAttempts(t *rapid.T) (accepted []rm.Route, attempts []attempt, 
 					frags[j] = rapid.SampledFrom([]string{":x", ":y", ":id", ":n", ":zz-unused"}).Draw(t, "rename")
 				}
 			}
-			p, m = strings.Join(frags, "/"), a.Method
+			p = strings.Join(frags, "/")
+			if rapid.Bool().Draw(t, "sameMethod") {
+				m = a.Method // a duplicate: rejected
+			} // else: the same shape under another method, with parameter names of its own - a route like any other
 		} else if rapid.IntRange(0, 30).Draw(t, "badmethod") == 0 {
 			m = rapid.SampledFrom([]string{"", "get", "FOO", "**"}).Draw(t, "bad")
 		}
